@@ -17,7 +17,7 @@ From Coq Require Import String.
 From Coq Require Import List NArith ZArith Bool.
 From Atlas Require Import Base.Bytes Hcl.Str Hcl.RegistryDefs Hcl.Registry
   Hcl.TypesSqlite Hcl.SqliteProofs gen.Gen_Registry_sqlite
-  Hcl.TypesMysql Hcl.MysqlProofs gen.Gen_Registry_mysql gen.Gen_Registry_postgres Hcl.RegistryWf
+  Hcl.TypesMysql Hcl.MysqlProofs Hcl.MysqlValuesProofs gen.Gen_Registry_mysql gen.Gen_Registry_postgres Hcl.RegistryWf
   Hcl.TypesPg Hcl.PgProofs.
 Import ListNotations.
 
@@ -72,19 +72,40 @@ Theorem C15_format_parse_fix_mysql_refuted_comma :
 Proof. exact MysqlProofs.mysql_fix_refuted_comma. Qed.
 Print Assumptions C15_format_parse_fix_mysql_refuted_comma.
 
-(** What holds, for unbounded size / precision / scale / time precision: every type whose T
-    is (case-insensitively) a name of its class and whose size parameters are non-negative
-    ([MysqlProofs.wf]) is a fixpoint. PARTIAL: ENUM and SET value lists are excluded ([wf] is
-    false on them); missing lemma: strings.Split(formatValues vs, "','") inverts the join when no
-    value contains a quote. The model itself covers them and is tied to the Go code. *)
-Theorem C15_format_parse_fix_mysql_partial :
-  forall t s, MysqlProofs.wf t = true -> Mysql.FormatType t = Ok s ->
+(** What holds, for unbounded size / precision / scale / time precision and for value lists of any
+    length: every type of every class whose T is (case-insensitively) a name of its class and
+    whose size parameters are non-negative ([MysqlProofs.wf]), and every ENUM / SET whose values
+    contain no quote, no double quote and no slash and whose first value is not exactly ","
+    ([MysqlValuesProofs.vals_ok]), is a fixpoint. The two refutations above are the only
+    counterexample families known (a quote at the edge of a value; first value ","); values
+    containing a double quote or a slash are excluded by the proof only (formatValues leaves an
+    already double-quoted value alone; parseColumn looks for a trailing comment), the model covers
+    them and is tied to the Go code. *)
+Theorem C15_format_parse_fix_mysql :
+  forall t s, MysqlValuesProofs.wf_all t = true -> Mysql.FormatType t = Ok s ->
     exists t', Mysql.ParseType s = Ok t' /\ Mysql.FormatType t' = Ok s.
-Proof. exact MysqlProofs.mysql_fix. Qed.
-Print Assumptions C15_format_parse_fix_mysql_partial.
+Proof. exact MysqlValuesProofs.mysql_fix_all. Qed.
+Print Assumptions C15_format_parse_fix_mysql.
+
+(** the split/join inversion behind it: for values without a quote whose first one is not ",",
+    Trim o Split(_, "','") gives back exactly the values formatValues joined. *)
+Theorem C15_mysql_split_join_inv :
+  forall v vs, MysqlValuesProofs.no39 v = true -> forallb MysqlValuesProofs.no39 vs = true -> v <> [44%N] ->
+    map (trim_c 39) (split (join [44%N] (map MysqlValuesProofs.q (v :: vs))) MysqlValuesProofs.sep3) = v :: vs.
+Proof. exact MysqlValuesProofs.split_join_inv. Qed.
+Print Assumptions C15_mysql_split_join_inv.
+
+Example C15_ex_mysql_values :
+  MysqlValuesProofs.wf_all (Mysql.EnumType (bs "enum") [bs "a,b"; bs ","; bs "c)"; bs ""]) = true /\
+  Mysql.FormatType (Mysql.SetType [bs "x"; bs "y z"]) = Ok (bs "set('x','y z')") /\
+  MysqlValuesProofs.wf_all (Mysql.SetType [bs "x"; bs "y z"]) = true /\
+  MysqlValuesProofs.wf_all (Mysql.EnumType (bs "enum") [bs ","; bs "b"]) = false /\
+  MysqlValuesProofs.wf_all (Mysql.EnumType (bs "enum") [bs "x'"]) = false /\
+  MysqlValuesProofs.wf_all (Mysql.EnumType (bs "enum") []) = false.
+Proof. vm_compute. repeat split; reflexivity. Qed.
 
 Example C15_ex_mysql_fix :
-  MysqlProofs.wf (Mysql.DecimalType (bs "NUMERIC") 65 30 true) = true /\
+  MysqlValuesProofs.wf_all (Mysql.DecimalType (bs "NUMERIC") 65 30 true) = true /\
   Mysql.FormatType (Mysql.DecimalType (bs "NUMERIC") 65 30 true) = Ok (bs "decimal(65,30) unsigned") /\
   MysqlProofs.wf (Mysql.TimeType (bs "timestamp") (Some 6%Z) None) = true.
 Proof. vm_compute. auto. Qed.
